@@ -121,6 +121,22 @@ class St:
         return self._extra["$loops"][j]
 
 
+class GhostDict(dict):
+    """ghost state of one path.  Inside a loop body a ghost may only be updated if the loop havocs it
+    (`havoc_ghosts` in the loop spec): otherwise the invariant would be checked from a stale value."""
+
+    def __init__(self, ctx):
+        super().__init__()
+        self._ctx = ctx
+
+    def __setitem__(self, name, value):
+        for allowed, what in getattr(self._ctx, "ghost_guards", []):
+            if name in self and name not in allowed:
+                raise Unsupported("engine frame check: %s updates ghost %r that the loop does not havoc "
+                                  "(add it to havoc_ghosts in the contract)" % (what, name))
+        super().__setitem__(name, value)
+
+
 class Ctx:
     """one execution path"""
 
@@ -132,7 +148,7 @@ class Ctx:
         self.env = {}
         self.heap = {}
         self.views = {}      # loc -> (parent_loc, key term) write-through
-        self.ghost = {}
+        self.ghost = GhostDict(self)
         self.obligations = []
         self.nloc = 0
         self.old = None
@@ -341,6 +357,7 @@ class Engine:
     def run(self):
         from .interp import Interp
         self.worklist = [[]]
+        self.ghost_fired = set()
         while self.worklist:
             prefix = self.worklist.pop()
             self.npaths += 1
@@ -353,4 +370,11 @@ class Engine:
             except PathEnd:
                 pass
             self.obligations.extend(ctx.obligations)
+        # every ghost update of the contract must be anchored at a statement that exists (and is reached) in the
+        # current source: otherwise the ghost state silently stops tracking the code (undecided, never a verdict)
+        for when, attr in (("before", "ghost_before"), ("after", "ghost_updates")):
+            for key in (getattr(self.contract, attr, None) or {}):
+                if (when, key) not in self.ghost_fired and not getattr(self.contract, "optional_anchors", False):
+                    raise Unsupported("ghost update anchored at %r: no such statement is executed in the current "
+                                      "source (renamed or removed?)" % key)
         return self.obligations
